@@ -427,7 +427,15 @@ class KroneckerProductTriangularLinearOperator(KroneckerProductLinearOperator, _
         left_tensor: Optional[Float[Tensor, "... O N"]] = None,
     ) -> Union[Float[Tensor, "... N P"], Float[Tensor, "... N"], Float[Tensor, "... O P"], Float[Tensor, "... O"]]:
         # For triangular components, using triangular-triangular substition should generally be good
-        return self._inv_matmul(right_tensor=right_tensor, left_tensor=left_tensor)
+        is_vec = right_tensor.ndimension() == 1
+        if is_vec:
+            right_tensor = right_tensor.unsqueeze(-1)
+        res = self._inv_matmul(right_tensor=right_tensor)
+        if is_vec:
+            res = res.squeeze(-1)
+        if left_tensor is not None:
+            res = left_tensor @ res
+        return res
 
 
 class KroneckerProductDiagLinearOperator(DiagLinearOperator, KroneckerProductTriangularLinearOperator):
